@@ -15,7 +15,7 @@ int const PLACEMENTS[] = { 0, 1, 3, 4, 5, 7, 2 };
 const char* EXT[] = { "99.0.0.1", "99.0.0.77" };
 const char* SEXT = "88.0.0.1";
 
-struct Scn { int placement; int ext; int traffic; /*0 udp c->s, 1 udp s->c, 2..4 tcp overloads*/ int client; /*0 C1, 1 C2*/ int port; /*0 explicit, 1 ephemeral*/ };
+struct Scn { int placement; int ext; int traffic; /*0 udp c->s, 1 udp s->c, 2..4 tcp overloads*/ int client; /*0 C1, 1 C2*/ int port; /*0 explicit, 1 ephemeral*/ int lossy; /*1: finite tail-drop channel queue, bigger TCP payload*/ };
 
 struct Result { std::vector<std::string> events; std::vector<std::string> fails; std::vector<int64_t> times; };
 
@@ -27,7 +27,7 @@ Result run_scn(Scn const& sc, bool with_nat, Ctx* ctx)
 	World w;
 	std::string ext = EXT[sc.ext];
 	w.on_build = [&](World& ww, sim::simulation&) {
-		auto net = ww.queue(0, ms(20), 0);
+		auto net = sc.lossy ? ww.queue(400000, ms(20), 4000) : ww.queue(0, ms(20), 0);
 		ww.chan = [net](ip::address, ip::address) { return World::hops_t{ net }; };
 		for (int c = 0; c < 2; ++c) {
 			std::string a = c == 0 ? "10.0.0.1" : "10.0.0.2";
@@ -81,14 +81,16 @@ Result run_scn(Scn const& sc, bool with_nat, Ctx* ctx)
 		std::unique_ptr<ip::tcp::socket> peer2; ip::tcp::endpoint peer_ep; bool accepted = false, connected = false;
 		ip::tcp::socket* srv = &peer;
 		cli.open(ip::tcp::v4()); if (!sc.port) cli.bind(ip::tcp::endpoint(addr(caddr.c_str()), 4000));
-		std::string from_c, from_s; char bc[64], bs[64];
+		std::string from_c, from_s; std::vector<char> bc, bs;
+		std::string msg_c = "hello-from-client", msg_s = "hello-from-server"; if (sc.lossy) { msg_c.resize(12000); msg_s.resize(9000); for (size_t i = 0; i < msg_c.size(); ++i) msg_c[i] = char('a' + i % 23); for (size_t i = 0; i < msg_s.size(); ++i) msg_s[i] = char('A' + i % 19); }
 		auto start_io = [&]() {
 			// data both ways once both ends are up
 			if (!(accepted && connected)) return;
-			asio::async_write(cli, asio::buffer("hello-from-client", 17), [&](error_code const& ec, std::size_t) { if (ec) fail("write: client " + ecs(ec)); });
-			asio::async_write(*srv, asio::buffer("hello-from-server", 17), [&](error_code const& ec, std::size_t) { if (ec) fail("write: server " + ecs(ec)); });
-			asio::async_read(cli, asio::buffer(bc, 17), [&](error_code const& ec, std::size_t n) { from_s.assign(bc, n); ev("client read '" + from_s + "' " + ecs(ec)); });
-			asio::async_read(*srv, asio::buffer(bs, 17), [&](error_code const& ec, std::size_t n) { from_c.assign(bs, n); ev("server read '" + from_c + "' " + ecs(ec)); });
+			asio::async_write(cli, asio::buffer(msg_c), [&](error_code const& ec, std::size_t) { if (ec) fail("write: client " + ecs(ec)); });
+			asio::async_write(*srv, asio::buffer(msg_s), [&](error_code const& ec, std::size_t) { if (ec) fail("write: server " + ecs(ec)); });
+			bc.resize(msg_s.size()); bs.resize(msg_c.size());
+			asio::async_read(cli, asio::buffer(bc), [&](error_code const& ec, std::size_t n) { from_s.assign(bc.data(), n); ev(fmt("client read %zu bytes h=%llx ", n, (unsigned long long)fnv(from_s)) + ecs(ec)); });
+			asio::async_read(*srv, asio::buffer(bs), [&](error_code const& ec, std::size_t n) { from_c.assign(bs.data(), n); ev(fmt("server read %zu bytes h=%llx ", n, (unsigned long long)fnv(from_c)) + ecs(ec)); });
 		};
 		auto on_acc = [&](error_code const& ec) {
 			ev("accept " + ecs(ec)); if (ec) { fail("accept: " + ecs(ec)); return; }
@@ -112,15 +114,15 @@ Result run_scn(Scn const& sc, bool with_nat, Ctx* ctx)
 			if (eps(srv->local_endpoint()) != "10.0.1.1:6000") fail("accepted_local: " + eps(srv->local_endpoint()));
 			if (eps(cli.remote_endpoint(e2)) != "10.0.1.1:6000") fail("connector_remote: the connector's remote_endpoint() is " + eps(cli.remote_endpoint(e2)) + ", it dialled 10.0.1.1:6000");
 			if (eps(cli.local_endpoint()) != fmt("%s:%d", caddr.c_str(), cport)) fail("connector_local: the connector's local_endpoint() is " + eps(cli.local_endpoint()));
-			if (from_c != "hello-from-client") fail("data: server received '" + from_c + "'");
-			if (from_s != "hello-from-server") fail("data: client received '" + from_s + "'");
+			if (from_c != msg_c) fail(fmt("data: server received %zu of %zu bytes", from_c.size(), msg_c.size()));
+			if (from_s != msg_s) fail(fmt("data: client received %zu of %zu bytes", from_s.size(), msg_s.size()));
 		}
 		error_code ig; cli.close(ig); srv->close(ig); acc.close(ig); sim.run();
 	}
 	return R;
 }
 
-std::string scn_str(Scn const& s) { return fmt("placement=%d ext=%s traffic=%d client=C%d port=%s", s.placement, EXT[s.ext], s.traffic, s.client + 1, s.port ? "ephemeral" : "4000"); }
+std::string scn_str(Scn const& s) { return fmt("placement=%d ext=%s traffic=%d client=C%d port=%s route=%s", s.placement, EXT[s.ext], s.traffic, s.client + 1, s.port ? "ephemeral" : "4000", s.lossy ? "lossy" : "loss-free"); }
 
 struct NatEngine : Engine
 {
@@ -128,7 +130,7 @@ struct NatEngine : Engine
 	uint64_t units(Args const&) override
 	{
 		all.clear();
-		for (int p : PLACEMENTS) for (int e = 0; e < 2; ++e) for (int t = 0; t < 5; ++t) for (int c = 0; c < 2; ++c) for (int port = 0; port < 2; ++port) all.push_back(Scn{ p, e, t, c, port });
+		for (int p : PLACEMENTS) for (int e = 0; e < 2; ++e) for (int t = 0; t < 5; ++t) for (int c = 0; c < 2; ++c) for (int port = 0; port < 2; ++port) for (int l = 0; l < 2; ++l) all.push_back(Scn{ p, e, t, c, port, l });
 		return all.size();
 	}
 	static void judge(Scn const& sc, Result const& nat, Result const& plain, std::vector<std::string>& fails)
@@ -154,7 +156,7 @@ struct NatEngine : Engine
 		auto clause_of = [](std::string const& x) { return x.substr(0, x.find(':')); };
 		for (auto& f : fails) add_violation(ctx, clause_of(f), c, scn_str(sc) + " " + f + " | " + tr, clause_of(f));
 		if (sc.placement) ctx.R.counters["scenarios_with_nat"]++;
-		if (u == 57) ctx.R.sample(scn_str(sc) + " => " + tr);
+		if (u == 57 || u == 200) ctx.R.sample(scn_str(sc) + " => " + tr);
 		ctx.end();
 		++ctx.R.executions; // the twin
 	}
